@@ -166,7 +166,10 @@ def counters(res, prog):
     for fld in ('symbols_requested', 'symbols_processed'):
         for (b, i, place, rv) in part_assigns(f, fld):
             rvx = f.expand(rv)
-            if rvx[0] == 'bin' and rvx[1] == 'Add' and rvx[3] == ('int', 1):
+            # a read-modify-write of the field itself under one guard: `guard.fld = guard.fld + 1` in one statement.
+            # A value computed earlier (`let n = guard.fld + 1; .await; guard.fld = n`) is a lost update when two
+            # lookups overlap, however it is spelled
+            if rv[0] == 'bin' and rv[1] == 'Add' and rv[3] == ('int', 1) and show(rv[2]) == show(place):
                 incs.setdefault(fld, []).append(b)
             else:
                 res.violation('C12.4', 'C12.4|%s|shape' % fld, f, f.blocks[b]['s'][i].get('line'), '%s assigned %s (expected += 1)' % (fld, show(rvx)))
